@@ -161,7 +161,7 @@ def parse_template(text):
                 # listed in known_findings.txt (then: KNOWN-FINDING), otherwise a failure is a VIOLATION
                 cur.finding = arg.strip()
                 cur.flags.add("noprobe")
-            elif cmd in ("drop_derive", "keep_pub", "noprobe", "noimpl", "plain", "implspec"):
+            elif cmd in ("drop_derive", "keep_pub", "noprobe", "noimpl", "plain", "implspec", "external_body"):
                 cur.flags.add(cmd)
             else:
                 raise ValueError("unknown directive: " + line)
@@ -436,10 +436,19 @@ def pre_fn_signature(item):
 def read_template(unit):
     with open(os.path.join(VERIF, "units", unit + ".rs.in")) as f:
         ttext = f.read()
-    # //@include <file relative to /verif/units>  : textual inclusion (shared preludes), up to 3 levels
+    # //@include <file relative to /verif/units> [without=ExA,ExB] : textual inclusion (shared preludes), up to 3 levels.
+    # `without=`: the named external type declarations (`#[verifier::..]` attribute lines + `pub struct ExA(..);`) of
+    # the included file are left out, so that the including unit can declare that type itself with another
+    # transparency (unit frames: `Bytecode` transparent, prelude/state.rs declares it opaque).
+    def _include(m):
+        text = open(os.path.join(VERIF, "units", m.group(1))).read()
+        for name in (m.group(2) or "").split(","):
+            if name:
+                text = re.sub(r"(?:^[ \t]*#\[verifier::[^\n]*\]\n)+[ \t]*pub struct " + re.escape(name) + r"\b[^\n]*;\n",
+                              "", text, flags=re.M)
+        return text
     for _ in range(3):
-        ttext = re.sub(r"^[ \t]*//@include\s+(\S+)[ \t]*$",
-                       lambda m: open(os.path.join(VERIF, "units", m.group(1))).read(), ttext, flags=re.M)
+        ttext = re.sub(r"^[ \t]*//@include\s+(\S+)(?:[ \t]+without=(\S+))?[ \t]*$", _include, ttext, flags=re.M)
     return ttext
 
 
@@ -556,6 +565,11 @@ def generate(unit, probe=False, repo=None):
                               " && ".join("(" + c.strip() + ")" for c in split_clauses(req) if c.strip()) + "\n    }\n"
                     sig_opts["clauses"] = f"    requires {pargs[0]}{pname}{pargs[1]}({pargs[2]}),"
                     body_opts["clauses"] = ens
+            if "external_body" in b.flags:
+                # (journal unit) the method text is emitted verbatim but its body is NOT verified: the contract is an
+                # ASSUMPTION (picked up by scan_trusted as `external_body fn <name>`); use together with //@noprobe
+                body_opts["attr_spec"] = "#[verifier::external_body]\n"
+                drops.append("body NOT verified (#[verifier::external_body]): the contract of this function is ASSUMED")
             sigtext, _ = extract.emit_item(item, sig_opts, [])
             body_opts["ret"] = b.ret
             text, lost = extract.emit_item(item, body_opts, drops)
